@@ -145,3 +145,14 @@ pub fn pool() -> Vec<(&'static str, String)> {
         ("nothing", format!("{}{}", PRELUDE, NOTHING)),
     ]
 }
+
+/// tiny schema for the bounded-exhaustive enumerators: object, interface, union, leaf fields,
+/// fields under list / non-null wrappers
+pub const TINY: &str = "
+interface I { a: Int  t: T }
+type T implements I { a: Int  t: T  ts: [T!]!  u: U  i: I }
+type V { a: String  v: V }
+union U = T | V
+type Query { a: Int  t: T  ts: [T!]!  u: U  i: I  v: V }
+type Subscription { a: Int  t: T }
+";
